@@ -9,7 +9,7 @@ use crate::value::Value;
 macro_rules! harness {
     ($name:ident, $body:expr) => {
         #[kani::proof]
-        #[kani::unwind(13)]
+        #[kani::unwind(5)]
         #[kani::stub(std::ptr::drop_in_place, noop_drop)]
         fn $name() {
             $body
@@ -124,9 +124,12 @@ harness!(c01_shape_67, split1(2, |k| shapes_split(6 + k, &CLS_T, 1, |d| roundtri
 //@ desc: vacuity twin: decoding a 2-element array claimed to fail — must be refuted
 //@ fns: parse_jsonb
 #[kani::proof]
-#[kani::unwind(13)]
+#[kani::unwind(5)]
 #[kani::stub(std::ptr::drop_in_place, noop_drop)]
 fn c01_twin_must_fail() {
     let d = B::build(&arr(&[leaf(K_NUM, 2), leaf(K_STR, 1)]));
-    assert!(parse_jsonb(d.bytes()).is_err(), "TWIN: deliberately false");
+    let r = parse_jsonb(d.bytes());
+    let bad = r.is_err();
+    core::mem::forget(r);
+    assert!(bad, "TWIN: deliberately false");
 }
